@@ -24,6 +24,7 @@ func propC08(w *World, r *Report) {
 		r.Assumes(a)
 	}
 	RunLosslessFor(w, r, "C08", newBoundsRun(w))
+	checkTagPad(w, r)
 	r.Floor("deadguard", 10)
 	r.Floor("twinformula", 1)
 	r.Require("twinformula|opentype/gtab.LookupList|variable lookupHeaderLen|0", "the lookup header size is computed both in LookupList.encode and in LookupList.tryReorder and the two formulas must agree")
